@@ -221,11 +221,14 @@ pub fn eval_case(ops: &[Op], drv: Option<&mut Drv>, pool: &Pool, rng: &mut Rng, 
     // dispose
     let before = world_map(&world);
     shared.lifecycle.lock().unwrap().clear();
-    let r = catch_unwind(AssertUnwindSafe(move || match disp {
+    // one time in five from a destructor while the caller unwinds (an owner that disposes in its `Drop`)
+    let unwinding = rng.chance(20);
+    let go = move || match disp {
         AnyDisp::D(d) => d.dispose(&mut world),
         AnyDisp::S(d) => d.dispose(&mut world),
         AnyDisp::B(d) => d.dispose(&mut world),
-    }));
+    };
+    let r = if unwinding { in_unwinding(|| catch_unwind(AssertUnwindSafe(go))) } else { catch_unwind(AssertUnwindSafe(go)) };
     if let Err(p) = r {
         out.impl_v.push(("C13".into(), format!("dispose panicked: {}", panic_message(&p))));
         return out;
